@@ -337,6 +337,18 @@ def run_tree(rng, tier, rep):
                 viol.append((f"dims:{op}", f"{desc}: result labelled {res.dims}, composition of the operands' labels is {wdims}", log[-3:]))
         if res.shape != got.shape:
             viol.append((f"shape:{op}", f"{desc}: shape attribute {res.shape} vs data {got.shape}", log[-3:]))
+        # the representation tag of a superoperator is part of its labels: operations on one object keep it, and the result
+        # still composes with the operand where the mathematics says it does
+        if a.issuper and op in ("neg", "dag", "trans", "conj", "smul", "sdiv", "inv", "copy", "to", "add", "sub") and (b is None or op not in ("add", "sub") or b.superrep == a.superrep):
+            if res.issuper and res.superrep != a.superrep:
+                viol.append((f"superrep:{op}", f"{desc}: the operand is in the '{a.superrep}' representation, the result is labelled '{res.superrep}'", log[-3:]))
+            elif op == "inv" and res.issuper:
+                try:
+                    prod_ = (a @ res).full()
+                    if np.abs(prod_ - np.eye(prod_.shape[0])).max() > 1e-6 * (1 + np.abs(res.full()).max() * np.abs(a.full()).max()):
+                        viol.append((f"value:inv-product", f"{desc}: a @ a.inv() is not the identity", log[-3:]))
+                except Exception as e:
+                    viol.append((f"superrep:inv-product", f"{desc}: a @ a.inv() raises {type(e).__name__}: {e}"[:240], log[-3:]))
         # quantities derived from the result must be those of its matrix (trace, diagonal, matrix elements)
         if got.shape[0] == got.shape[1]:
             tr = res.tr()
